@@ -78,6 +78,13 @@ pub fn any_cols_fixed_w(max: usize) -> Vec<Col> {
     cols
 }
 
+pub fn any_rows_fixed_h(max: usize) -> Vec<Row> {
+    let mut rows = any_rows(max);
+    let mut i = 0;
+    while i < rows.len() { rows[i].height = FIXED_W[i]; i += 1; }
+    rows
+}
+
 pub fn sheet_with(cols: Vec<Col>, rows: Vec<Row>) -> Worksheet {
     let mut ws = empty_sheet("Sheet1", 1);
     ws.cols = cols;
